@@ -211,3 +211,60 @@ def ms1(proj, rep, funcs):
     rep.count('MS1.functions', len(funcs))
     rep.count('MS1.sites', total)
     return len(funcs), total
+
+
+# ------------------------------------------------------------------------------------------------ MS2
+RULE_MS2 = ('MS2: blocks guarded by `if np.any(mask_k):` that update the mask_k entries of a batch are independent statements: different masks '
+            'select different batch elements, so an `elif` / nesting under the else of another mask test skips the second group whenever the '
+            'first group is non-empty in the same batch.')
+
+
+def _any_mask(test):
+    """name of the mask in `np.any(mask)` / `mask.any()` / `torch.any(mask)`; None otherwise"""
+    if isinstance(test, ast.Call):
+        f = test.func
+        if isinstance(f, ast.Attribute) and f.attr == 'any':
+            if test.args and isinstance(test.args[0], ast.Name):
+                return test.args[0].id
+            if not test.args and isinstance(f.value, ast.Name):
+                return f.value.id
+    return None
+
+
+def ms2(proj, rep, funcs):
+    rep.rule('MS2', RULE_MS2)
+    n = 0
+    for q in funcs:
+        fi = proj.func(q)
+        m = fi.module
+        rep.touch(m)
+        for st in ast.walk(fi.node):
+            if not isinstance(st, ast.If):
+                continue
+            mk = _any_mask(st.test)
+            if mk is None:
+                continue
+            # does the body store through this mask?
+            stores = any(isinstance(x, ast.Subscript) and isinstance(x.ctx, ast.Store) and isinstance(x.slice, ast.Name) and x.slice.id == mk
+                         for b in st.body for x in ast.walk(b))
+            if not stores:
+                continue
+            n += 1
+            chained = None
+            for o in st.orelse:
+                for x in ast.walk(o):
+                    if isinstance(x, ast.If):
+                        mk2 = _any_mask(x.test)
+                        if mk2 is not None and mk2 != mk:
+                            chained = (mk2, x)
+                            break
+                if chained:
+                    break
+            if chained:
+                mk2, x = chained
+                rep.violation('MS2', q, f'`if np.any({mk2}):` is reached only when `np.any({mk})` is False (elif / else nesting): in a batch that contains both '
+                              f'groups the {mk2} entries are never updated and keep their initial values', m, x)
+            else:
+                rep.ok('MS2', q, f'`if np.any({mk})` block is an independent statement', m, st)
+    rep.count('MS2.mask_blocks', n)
+    return n
